@@ -268,10 +268,10 @@ open Rv.CachePipe in
     the server after that write. In particular a reply of an older fetch that reached the store before the push was
     deleted by it (`push_deletes_key`), and a reply still queued behind the push is newer
     (`reply_after_push_is_newer`). -/
-theorem no_stale_hit (mx base : Int) (evs1 evs2 : List Ev) (k : Bytes) (n : Nat) (rest : List Msg)
+theorem no_stale_hit (mx base : Int) (evs1 evs2 : List Ev) (t : Int) (k : Bytes) (n : Nat) (rest : List Msg)
     (hq : (CachePipe.run (CachePipe.init mx base) evs1).respQ = .push k n :: rest)
     (c : Bytes) (ttl now : Int) (v : Nat) (exp : Int)
-    (h : lookupRes (CachePipe.run (CachePipe.init mx base) (evs1 ++ .deliver :: evs2)) k c ttl now = .hit v exp) :
+    (h : lookupRes (CachePipe.run (CachePipe.init mx base) (evs1 ++ .deliver t :: evs2)) k c ttl now = .hit v exp) :
     n ≤ v := by
   have hsplit : ∀ (st : St) (a b : List Ev), CachePipe.run st (a ++ b) = CachePipe.run (CachePipe.run st a) b := by
     intro st a; induction a generalizing st with
@@ -280,16 +280,16 @@ theorem no_stale_hit (mx base : Int) (evs1 evs2 : List Ev) (k : Bytes) (n : Nat)
   have h1 := (hit_not_older_than_processed_invalidation mx base _ k c ttl now v exp h).1
   rw [hsplit] at h1
   generalize CachePipe.run (CachePipe.init mx base) evs1 = st1 at hq h1
-  have hfl : n ≤ (CachePipe.step st1 .deliver).floor k := by
+  have hfl : n ≤ (CachePipe.step st1 (.deliver t)).floor k := by
     simp only [CachePipe.step, hq, handle, upd_same]; exact Nat.le_max_right _ _
   exact Nat.le_trans hfl (Nat.le_trans (floor_mono_run _ evs2 k) h1)
 
 open Rv.CachePipe in
 /-- the same after a flush push (`Delete(nil)`): every later hit is at least as new as the flush, for every key -/
-theorem no_stale_hit_after_flush (mx base : Int) (evs1 evs2 : List Ev) (g : Bytes → Nat) (rest : List Msg)
+theorem no_stale_hit_after_flush (mx base : Int) (evs1 evs2 : List Ev) (t : Int) (g : Bytes → Nat) (rest : List Msg)
     (hq : (CachePipe.run (CachePipe.init mx base) evs1).respQ = .pushAll g :: rest)
     (k c : Bytes) (ttl now : Int) (v : Nat) (exp : Int)
-    (h : lookupRes (CachePipe.run (CachePipe.init mx base) (evs1 ++ .deliver :: evs2)) k c ttl now = .hit v exp) :
+    (h : lookupRes (CachePipe.run (CachePipe.init mx base) (evs1 ++ .deliver t :: evs2)) k c ttl now = .hit v exp) :
     g k ≤ v := by
   have hsplit : ∀ (st : St) (a b : List Ev), CachePipe.run st (a ++ b) = CachePipe.run (CachePipe.run st a) b := by
     intro st a; induction a generalizing st with
@@ -298,7 +298,7 @@ theorem no_stale_hit_after_flush (mx base : Int) (evs1 evs2 : List Ev) (g : Byte
   have h1 := (hit_not_older_than_processed_invalidation mx base _ k c ttl now v exp h).1
   rw [hsplit] at h1
   generalize CachePipe.run (CachePipe.init mx base) evs1 = st1 at hq h1
-  have hfl : g k ≤ (CachePipe.step st1 .deliver).floor k := by
+  have hfl : g k ≤ (CachePipe.step st1 (.deliver t)).floor k := by
     simp only [CachePipe.step, hq, handle]; exact Nat.le_max_right _ _
   exact Nat.le_trans hfl (Nat.le_trans (floor_mono_run _ evs2 k) h1)
 
@@ -316,11 +316,11 @@ theorem hit_is_reply_of_same_command (mx base : Int) (evs : List Ev) (k c : Byte
 open Rv.CachePipe in
 /-- **Pending entries survive invalidation**: handling an invalidation push (of any key, or a flush) leaves every
     in-flight entry in the store; its reply, which is behind the push on the wire, will fill it. -/
-theorem pending_survives_invalidation (mx base : Int) (evs : List Ev) (m : Msg) (rest : List Msg)
+theorem pending_survives_invalidation (mx base : Int) (evs : List Ev) (t : Int) (m : Msg) (rest : List Msg)
     (hq : (CachePipe.run (CachePipe.init mx base) evs).respQ = m :: rest)
     (hm : (∃ k n, m = .push k n) ∨ ∃ g, m = .pushAll g)
     (e : Entry) (he : e ∈ (CachePipe.run (CachePipe.init mx base) evs).store.list) (hp : e.pend = true) :
-    e ∈ (CachePipe.step (CachePipe.run (CachePipe.init mx base) evs) .deliver).store.list := by
+    e ∈ (CachePipe.step (CachePipe.run (CachePipe.init mx base) evs) (.deliver t)).store.list := by
   have hinv := pinv_run (pinv_init mx base) evs
   generalize CachePipe.run (CachePipe.init mx base) evs = st at hq he hinv
   rcases hm with ⟨k, n, rfl⟩ | ⟨g, rfl⟩
@@ -331,8 +331,8 @@ theorem pending_survives_invalidation (mx base : Int) (evs : List Ev) (m : Msg) 
 
 open Rv.CachePipe in
 /-- a reply that reached the store BEFORE the push of its key is deleted by that push -/
-theorem push_deletes_key (st : St) (k : Bytes) (n : Nat) (rest : List Msg) (hq : st.respQ = .push k n :: rest) :
-    ∀ e ∈ (CachePipe.step st .deliver).store.list, e.key = k → e.pend = true := by
+theorem push_deletes_key (st : St) (t : Int) (k : Bytes) (n : Nat) (rest : List Msg) (hq : st.respQ = .push k n :: rest) :
+    ∀ e ∈ (CachePipe.step st (.deliver t)).store.list, e.key = k → e.pend = true := by
   intro e he hk
   simp only [CachePipe.step, hq, handle] at he
   have := (mem_foldl_purge [k] he).2
@@ -382,10 +382,10 @@ open Rv.CachePipe in
     is served between the two deliveries and no longer afterwards -/
 theorem pipe_scenario :
     let k : Bytes := [107]; let c : Bytes := [71]
-    let evs : List Ev := [.start k c 1000000000000 0, .exec 50 0, .write k, .deliver]
+    let evs : List Ev := [.start k c 1000000000000 0, .exec 50 (-1), .write k, .deliver 500000]
     let st := CachePipe.run (CachePipe.init 10000 336) evs
     lookupRes st k c 1000000000000 1000000 = .hit 0 1000000 ∧
     st.ver k = 1 ∧
-    lookupRes (CachePipe.step st .deliver) k c 1000000000000 1000000 = .send := by decide
+    lookupRes (CachePipe.step st (.deliver 600000)) k c 1000000000000 1000000 = .send := by decide
 
 end Rv.C06
